@@ -202,25 +202,36 @@ def tlc_must_pass(res, what):
 
 
 def printed_json(out, marker="JSON:"):
-    """Collect values printed by TLC via PrintT(<<"JSON:", ToJson(x)>>) or Print of a string starting with marker."""
+    """Collect values printed by TLC via PrintT(<<"JSON:", ToJson(x)>>)."""
     vals = []
+    rx = re.compile(r'<<"' + re.escape(marker) + r'",\s*(".*")\s*>>\s*$')
     for line in out.splitlines():
-        line = line.strip()
-        i = line.find(marker)
-        if i < 0:
+        if marker not in line:
             continue
-        s = line[i + len(marker):].strip()
-        # TLC prints strings with quotes and escapes: "…"
-        if s.startswith('"') and s.endswith('"'):
-            try:
-                s = json.loads(s)
-            except Exception:
-                s = s[1:-1].replace('\\"', '"').replace("\\\\", "\\")
+        m = rx.search(line.strip())
+        if not m:
+            raise MachineryFault("cannot parse TLC JSON line: %r" % line[:300])
         try:
-            vals.append(json.loads(s))
+            vals.append(json.loads(json.loads(m.group(1))))
         except Exception as ex:
             raise MachineryFault("cannot parse TLC JSON line: %r (%s)" % (line[:300], ex))
     return vals
+
+
+def error_trace_last_state(out):
+    """Parse the last state of a TLC error trace into {var: value}."""
+    blocks = re.split(r"\nState \d+: <[^\n]*>\n", out)
+    if len(blocks) < 2:
+        return None
+    last = blocks[-1]
+    last = last.split("\n\n")[0]
+    st = {}
+    for m in re.finditer(r"/\\ (\w+) = (.*?)(?=\n/\\ \w+ = |\Z)", last, re.S):
+        try:
+            st[m.group(1)] = parse_tla(m.group(2).strip())
+        except Exception:
+            st[m.group(1)] = m.group(2).strip()
+    return st
 
 
 # ---------------------------------------------------------------- TLA+ value parser (for TLC's text output)
@@ -410,6 +421,33 @@ class Check:
             return 1
         print("OK property=%s tier=%s seed=%d wall=%.1fs" % (self.pid, self.tier, self.seed, wall))
         return 0
+
+
+def model_flag(name, default=False):
+    """Switches that select which variant of a transcribed decision is 'the code' (spec/model_flags.json).
+    They only affect drift notes and TLC-side expectations, never verdicts."""
+    p = os.path.join(SPEC, "model_flags.json")
+    if os.path.exists(p):
+        return json.load(open(p)).get(name, default)
+    return default
+
+
+def absorb(chk, r, traces=0):
+    """Fold a harness Result (vh.Result JSON) into the check: counts, samples, violations."""
+    chk.cov["evaluations"] += r.get("evaluations", 0)
+    chk.cov["distinct_nontrivial"] += r.get("distinct_nontrivial", 0)
+    chk.cov["traces_validated_against_impl"] += r.get("traces", 0) + traces
+    for s in r.get("samples") or []:
+        chk.sample(s)
+    ctr = chk.cov.setdefault("counters", {})
+    for k, v in (r.get("counters") or {}).items():
+        ctr[k] = ctr.get(k, 0) + v
+    for k, v in (r.get("extra") or {}).items():
+        chk.cov.setdefault("extra", {})[k] = v
+    if r.get("drift"):
+        chk.notes.append({"model-drift": r["drift"][:5], "count": (r.get("counters") or {}).get("drift")})
+    for v in r.get("violations") or []:
+        chk.violation(v["sig"], v["text"], v.get("replay"))
 
 
 def _sig_match(pattern, sig):
